@@ -62,8 +62,14 @@ void run (string s) {
   for (i = 0; i < sizeof (ops); i++) {
     do_op (ops[i]);
     if (!this_object ()) {
-      // destructed itself: the script stops - except that an error can still be raised on the way out
-      if (i + 1 < sizeof (ops) && ops[i + 1] == "err") error ("boom " + me + "\n");
+      // destructed itself: the script stops - except that the function still runs: its own set_heart_beat calls (zshb)
+      // are made, and an error can be raised on the way out
+      for (i++; i < sizeof (ops); i++) {
+        if (ops[i] == "err") error ("boom " + me + "\n");
+        if (ops[i][0..3] != "zshb") break;
+        set_heart_beat (parse_int (explode (ops[i], ",")[1]));
+        VL ("r zshb " + me + " " + explode (ops[i], ",")[1]);
+      }
       return;
     }
   }
@@ -141,6 +147,10 @@ mixed do_op (string s) {
       move_object (ob);
       VL ("r mv " + me + " " + w[1]);
     } else VL ("r mv " + me + " " + w[1] + " !none");
+    break;
+  case "zshb":    // zshb,<n>: set_heart_beat(n) in this object itself (no registry lookup, no query: also legal after destruct)
+    set_heart_beat (parse_int (w[1]));
+    VL ("r zshb " + me + " " + w[1]);
     break;
   case "cerr":    // the error is caught: error_handler leaves through its catch branch
     catch (error ("boom " + me + "\n"));
